@@ -1,7 +1,7 @@
 """C28: generate lean/PonyVerif/Gen/TrackedTable.lean from the REAL classes TrackedList / TrackedDict / TrackedArray.
 
-`extra_regenerate(repo, lean_dir)` has the shape of `py2lean.regenerate` (module -> {'ok','error','info','changed'})
-and is meant to be called from framework.prepare_lean before the Lean build.
+`regenerate(repo, lean_dir)` has the shape of `py2lean.regenerate` (module -> {'ok','error','info','changed'}); it is picked up
+by framework.regenerate_all (every harness/gen_<name>.py) before the Lean build.
 
 What is generated (model structure `PonyVerif.Model.Tracked.Cfg`):
   listOv / dictOv / arrOv : the mutating methods of list / dict which, looked up along the MRO of the Tracked class,
@@ -163,7 +163,7 @@ def render(f):
     return '\n'.join(lines)
 
 
-def extra_regenerate(repo, lean_dir):
+def regenerate(repo, lean_dir):
     path = os.path.join(lean_dir, 'PonyVerif', 'Gen', 'TrackedTable.lean')
     try:
         f = facts(repo)
@@ -178,6 +178,8 @@ def extra_regenerate(repo, lean_dir):
     return {'TrackedTable': {'ok': err is None, 'error': err, 'info': {k: f[k] for k in f if k != 'errors'}, 'changed': old != text}}
 
 
+extra_regenerate = regenerate
+
 if __name__ == '__main__':
     if '--introspect' in sys.argv:
         print(json.dumps(introspect()))
@@ -185,4 +187,4 @@ if __name__ == '__main__':
         here = os.path.dirname(os.path.abspath(__file__))
         repo = os.environ.get('VERIF_REPO', '/repo')
         lean = os.environ.get('VERIF_LEAN') or os.path.join(here, '..', 'lean')
-        print(json.dumps(extra_regenerate(repo, lean), indent=1))
+        print(json.dumps(regenerate(repo, lean), indent=1))
